@@ -1,17 +1,246 @@
 /-
-  Property C02 — PLACEHOLDER while the full theorem file (see /verif/lean/stmts) is being proved:
-  only the rollback clause is here.  Replaced by the complete file as soon as it checks.
+  Property C02 — each message is approved once and executed once, only by its destination.
+  Statements are FIXED: prove them exactly as stated (helper lemmas go above them or in Cgp/Proofs/C02.lean).
 -/
 import Cgp.GatewaySpec
+import Cgp.Proofs.C02
 namespace Cgp.Props.C02
 open Cgp Cgp.Xdr Cgp.Gateway
+open Cgp.Proofs.C02
 
 variable (H : Bytes → Bytes) {σ : Type} (V : Bytes → Bytes → σ → Bool)
 
-theorem consume_rejected_unchanged (w : World) (auths : List Addr) (caller : Addr) (c i sa ph : Bytes) (e : Err)
-    (h : (step H V w (.validateMessage auths caller c i sa ph)).2 = .err e) :
-    (step H V w (.validateMessage auths caller c i sa ph)).1 = w := by
-  simp only [step] at h ⊢
-  split <;> simp_all
+/-- one operation never moves a message's status backwards … -/
+theorem status_monotone_step (w : World) (op : Op σ) (c i : Bytes) :
+    (w.st.approvals c i).rank ≤ ((step H V w op).1.st.approvals c i).rank := by
+  exact (step_adv H V w op c i).rank
+
+/-- … so over every history the status only moves not-approved → approved → executed -/
+theorem status_monotone (w : World) (ops : List (Op σ)) (c i : Bytes) :
+    (w.st.approvals c i).rank ≤ ((run H V w ops).1.st.approvals c i).rank := by
+  induction ops generalizing w with
+  | nil => exact Nat.le_refl _
+  | cons op ops ih =>
+    rw [run_cons]
+    exact Nat.le_trans (step_adv H V w op c i).rank (ih (step H V w op).1)
+
+/-- the content hash recorded by the first approval never changes: it stays, or the message becomes executed -/
+theorem approved_content_stable (w : World) (ops : List (Op σ)) (c i h : Bytes)
+    (h0 : w.st.approvals c i = .approved h) :
+    (run H V w ops).1.st.approvals c i = .approved h ∨ (run H V w ops).1.st.approvals c i = .executed := by
+  induction ops generalizing w with
+  | nil => exact Or.inl h0
+  | cons op ops ih =>
+    rw [run_cons]
+    rcases step_adv H V w op c i with h1 | ⟨h1, _⟩ | ⟨_, h1⟩
+    · exact ih (step H V w op).1 (by rw [← h1]; exact h0)
+    · rw [h0] at h1; cases h1
+    · exact Or.inr (run_executed H V _ ops c i h1)
+
+/-- executed is final -/
+theorem executed_final (w : World) (ops : List (Op σ)) (c i : Bytes) (h0 : w.st.approvals c i = .executed) :
+    (run H V w ops).1.st.approvals c i = .executed := by
+  exact run_executed H V w ops c i h0
+
+/-- re-submitting an approval for a known id changes nothing about it and emits no event for it -/
+theorem reapproval_inert (st : State) (ms : List Message) (c i : Bytes)
+    (hk : st.approvals c i ≠ .notApproved) :
+    ((approveLoop H ms st).1.approvals c i = st.approvals c i) ∧
+    (∀ ev ∈ (approveLoop H ms st).2, ∀ m : Message, ev.topics = (evApproved m).topics →
+        ¬ (m.sourceChain = c ∧ m.messageId = i)) := by
+  refine ⟨approveLoop_known_key H ms st c i hk, ?_⟩
+  intro ev hev m htop hm
+  obtain ⟨m', hm', hst, rfl⟩ := approveLoop_events H ms st ev hev
+  have : m.toSc = m'.toSc := by
+    simp only [evApproved] at htop
+    injection htop with _ h2
+    injection h2 with h3 _
+    exact h3.symm
+  have hmm : m = m' := toSc_injective this
+  subst hmm
+  obtain ⟨rfl, rfl⟩ := hm
+  exact hk hst
+
+/-- the approval loop emits exactly one event per message whose key was fresh at its turn, and records its hash -/
+theorem approval_of_fresh (st : State) (m : Message) (rest : List Message)
+    (hk : st.approvals m.sourceChain m.messageId = .notApproved) :
+    (approveLoop H (m :: rest) st).2.length = (approveLoop H rest
+        { st with approvals := fun c i => if c = m.sourceChain ∧ i = m.messageId then .approved (messageHash H m) else st.approvals c i }).2.length + 1 ∧
+    (approveLoop H (m :: rest) st).1.approvals m.sourceChain m.messageId = .approved (messageHash H m) := by
+  have h := approveLoop_fresh H st m rest hk
+  refine ⟨?_, ?_⟩
+  · rw [h]; simp [setApproved]
+  · rw [h]
+    show (approveLoop H rest (setApproved H st m)).1.approvals m.sourceChain m.messageId = _
+    rw [approveLoop_known_key H rest (setApproved H st m) _ _ (by simp [setApproved])]
+    simp [setApproved]
+
+/-- consuming succeeds exactly when the caller authorised the call and the stored record is the hash of
+    (chain, id, source address, THE CALLER as destination, payload hash) -/
+theorem consume_iff (st : State) (auths : List Addr) (caller : Addr) (c i sa ph : Bytes) :
+    (∃ st' evs, validateMessage H st auths caller c i sa ph = .ok (st', true, evs)) ↔
+      (caller ∈ auths ∧ st.approvals c i =
+        .approved (messageHash H { sourceChain := c, messageId := i, sourceAddress := sa, contract := caller, payloadHash := ph })) := by
+  constructor
+  · rintro ⟨st', evs, h⟩
+    obtain ⟨ha, ⟨_, hr, _, _⟩ | ⟨hb, _⟩⟩ := validateMessage_ok H _ _ _ _ _ _ _ _ _ _ h
+    · exact ⟨ha, hr⟩
+    · cases hb
+  · rintro ⟨ha, hr⟩
+    have : validateMessage H st auths caller c i sa ph = .ok
+        ({ st with approvals := fun c' i' => if c' = c ∧ i' = i then .executed else st.approvals c' i' }, true,
+         [evExecuted { sourceChain := c, messageId := i, sourceAddress := sa, contract := caller, payloadHash := ph }]) := by
+      unfold validateMessage
+      rw [if_neg (fun hn => hn ha)]
+      dsimp only
+      rw [if_pos hr]
+    exact ⟨_, _, this⟩
+
+/-- a successful consumption marks the message executed, touches no other key, and emits exactly one event -/
+theorem consume_effect (st st' : State) (auths : List Addr) (caller : Addr) (c i sa ph : Bytes) (evs : List Event)
+    (h : validateMessage H st auths caller c i sa ph = .ok (st', true, evs)) :
+    st'.approvals c i = .executed ∧ (∀ c' i', ¬ (c' = c ∧ i' = i) → st'.approvals c' i' = st.approvals c' i') ∧
+    evs.length = 1 := by
+  obtain ⟨_, ⟨_, _, hs, he⟩ | ⟨hb, _⟩⟩ := validateMessage_ok H _ _ _ _ _ _ _ _ _ _ h
+  · subst hs; subst he
+    refine ⟨by simp, ?_, rfl⟩
+    intro c' i' hne
+    simp [hne]
+  · cases hb
+
+/-- an unsuccessful consumption attempt (`false` or unauthorised) changes nothing and emits nothing -/
+theorem consume_false_inert (st st' : State) (auths : List Addr) (caller : Addr) (c i sa ph : Bytes) (evs : List Event)
+    (h : validateMessage H st auths caller c i sa ph = .ok (st', false, evs)) :
+    st' = st ∧ evs = [] := by
+  obtain ⟨_, ⟨hb, _⟩ | ⟨_, _, hs, he⟩⟩ := validateMessage_ok H _ _ _ _ _ _ _ _ _ _ h
+  · cases hb
+  · exact ⟨hs, he⟩
+
+/-- successful consumptions of key (c,i) in a history -/
+def consumptions (c i : Bytes) : List (Op σ) → List Obs → Nat
+  | (.validateMessage _ _ c' i' _ _) :: ops, (.okBool true _) :: os =>
+      consumptions c i ops os + (if c' = c ∧ i' = i then 1 else 0)
+  | _ :: ops, _ :: os => consumptions c i ops os
+  | _, _ => 0
+
+/-- contribution of one (operation, observation) pair to `consumptions` -/
+def hit (c i : Bytes) : Op σ → Obs → Nat
+  | .validateMessage _ _ c' i' _ _, .okBool true _ => if c' = c ∧ i' = i then 1 else 0
+  | _, _ => 0
+
+theorem consumptions_cons (c i : Bytes) (op : Op σ) (ops : List (Op σ)) (o : Obs) (os : List Obs) :
+    consumptions c i (op :: ops) (o :: os) = consumptions c i ops os + hit c i op o := by
+  cases op <;> cases o <;> (try rename_i b _; cases b) <;> simp [consumptions, hit]
+
+/-- a hit happens only from `approved`, and leaves `executed` -/
+theorem hit_step (w : World) (op : Op σ) (c i : Bytes) (hh : hit c i op (step H V w op).2 ≠ 0) :
+    (∃ h, w.st.approvals c i = .approved h) ∧ (step H V w op).1.st.approvals c i = .executed ∧
+    hit c i op (step H V w op).2 = 1 := by
+  cases op with
+  | validateMessage auths caller chain id src ph =>
+    simp only [step] at hh ⊢
+    split at hh
+    · rename_i st' b evs h
+      simp only [] at hh ⊢
+      obtain ⟨_, ⟨hb, hr, hs, _⟩ | ⟨hb, _⟩⟩ := validateMessage_ok H _ _ _ _ _ _ _ _ _ _ h
+      · subst hb; subst hs
+        simp only [hit] at hh ⊢
+        by_cases hci : chain = c ∧ id = i
+        · obtain ⟨rfl, rfl⟩ := hci
+          exact ⟨⟨_, hr⟩, by simp, by simp⟩
+        · simp [hci] at hh
+      · subst hb; simp [hit] at hh
+    · simp [hit] at hh
+  | approve ms proof => simp only [step] at hh; split at hh <;> simp [hit] at hh
+  | rotate auths ws proof bypass => simp only [step] at hh; split at hh <;> simp [hit] at hh
+  | callContract auths caller chain dest payload => simp only [step] at hh; split at hh <;> simp [hit] at hh
+  | transferOwnership auths new => simp only [step] at hh; split at hh <;> simp [hit] at hh
+  | transferOperatorship auths new => simp only [step] at hh; split at hh <;> simp [hit] at hh
+  | setTime now => simp [hit] at hh
+
+theorem consumptions_bound (w : World) (ops : List (Op σ)) (c i : Bytes) :
+    consumptions c i ops (run H V w ops).2 ≤ 1 ∧
+    (w.st.approvals c i = .executed → consumptions c i ops (run H V w ops).2 = 0) := by
+  induction ops generalizing w with
+  | nil => simp [consumptions]
+  | cons op ops ih =>
+    rw [run_cons]
+    simp only [consumptions_cons]
+    obtain ⟨ih1, ih2⟩ := ih (step H V w op).1
+    by_cases hh : hit c i op (step H V w op).2 = 0
+    · rw [hh]
+      refine ⟨ih1, fun h0 => ?_⟩
+      have := ih2 (step_executed H V w op c i h0)
+      omega
+    · obtain ⟨⟨h, ha⟩, he, h1⟩ := hit_step H V w op c i hh
+      have := ih2 he
+      rw [h1, this]
+      refine ⟨Nat.le_refl _, fun h0 => ?_⟩
+      rw [h0] at ha; cases ha
+
+
+/-- **at most once**: in every history, every (chain, id) is consumed successfully at most once -/
+theorem consume_at_most_once (w : World) (ops : List (Op σ)) (c i : Bytes) :
+    consumptions c i ops (run H V w ops).2 ≤ 1 := by
+  exact (consumptions_bound H V w ops c i).1
+
+/-- and never again once executed -/
+theorem no_consume_after_executed (w : World) (ops : List (Op σ)) (c i : Bytes)
+    (h0 : w.st.approvals c i = .executed) :
+    consumptions c i ops (run H V w ops).2 = 0 := by
+  exact (consumptions_bound H V w ops c i).2 h0
+
+/-- consumption binds every field of the approved message: if message `m` was recorded and a consumption with
+    fields (sa, caller, ph) succeeds, those fields are `m`'s — or a hash collision is exhibited -/
+theorem consume_binds_fields (st : State) (m : Message) (auths : List Addr) (caller : Addr) (sa ph : Bytes)
+    (hm : m.Typed)
+    (hc : ({ sourceChain := m.sourceChain, messageId := m.messageId, sourceAddress := sa, contract := caller, payloadHash := ph } : Message).Typed)
+    (hrec : st.approvals m.sourceChain m.messageId = .approved (messageHash H m))
+    (h : ∃ st' evs, validateMessage H st auths caller m.sourceChain m.messageId sa ph = .ok (st', true, evs)) :
+    (sa = m.sourceAddress ∧ caller = m.contract ∧ ph = m.payloadHash) ∨ Collision H := by
+  obtain ⟨st', evs, h⟩ := h
+  obtain ⟨_, ⟨_, hr, _, _⟩ | ⟨hb, _⟩⟩ := validateMessage_ok H _ _ _ _ _ _ _ _ _ _ h
+  · rw [hrec] at hr
+    injection hr with hr
+    unfold messageHash at hr
+    by_cases hx : enc m.toSc = enc (Message.toSc
+        { sourceChain := m.sourceChain, messageId := m.messageId, sourceAddress := sa, contract := caller, payloadHash := ph })
+    · have := enc_injective _ _ (toSc_WF hm) (toSc_WF hc) hx
+      have := toSc_injective this
+      left
+      cases m
+      simp only [Message.mk.injEq] at this
+      obtain ⟨_, _, h1, h2, h3⟩ := this
+      exact ⟨h1.symm, h2.symm, h3.symm⟩
+    · exact Or.inr ⟨_, _, hx, hr⟩
+  · cases hb
+
+/-- the queries agree with the stored history -/
+theorem queries_agree (st : State) (m : Message) :
+    (isMessageApproved H st m = true ↔ st.approvals m.sourceChain m.messageId = .approved (messageHash H m)) ∧
+    (isMessageExecuted st m.sourceChain m.messageId = true ↔ st.approvals m.sourceChain m.messageId = .executed) := by
+  simp [isMessageApproved, isMessageExecuted]
+
+/-- the storage key the implementation uses (XDR of the struct {message_id, source_chain}) separates
+    ids that differ only in how the same characters are split between chain and id -/
+def keySc (c i : Bytes) : ScVal :=
+  .map (.cons (.sym symMessageId) (.str i) (.cons (.sym symSourceChain) (.str c) .nil))
+
+theorem keys_distinct (c i c' i' : Bytes) (hc : c.length < 256 ^ 4) (hi : i.length < 256 ^ 4)
+    (hc' : c'.length < 256 ^ 4) (hi' : i'.length < 256 ^ 4)
+    (h : enc (keySc c i) = enc (keySc c' i')) : c = c' ∧ i = i' := by
+  have hw : ∀ c i : Bytes, c.length < 256 ^ 4 → i.length < 256 ^ 4 → (keySc c i).WF := by
+    intro c i hc hi
+    simp only [keySc, ScVal.WF, ScPairs.WF, ScPairs.len, symMessageId, symSourceChain, List.length_cons,
+      List.length_nil]
+    refine ⟨by decide, ⟨by decide, hi, by decide, hc, trivial⟩⟩
+  have := enc_injective _ _ (hw c i hc hi) (hw c' i' hc' hi') h
+  simp only [keySc] at this
+  injection this with this
+  injection this with _ h1 h2
+  injection h1 with h1
+  injection h2 with _ h3 _
+  injection h3 with h3
+  exact ⟨h3, h1⟩
 
 end Cgp.Props.C02
